@@ -567,4 +567,95 @@ theorem defaults_match_source :
 theorem guard_threshold (nd : Rat × Rat) : guardDiv nd = if nd.2 < guardThreshold then nd.1 else nd.1 / nd.2 :=
   guardDiv_threshold' nd
 
+
+/-! ## phase 4 (continued) — which columns get scaled / imputed (mixed-type columns included); the square root -/
+
+/-- parameters exist for a window column exactly when none of the three exception conditions (`TypeErrCond`,
+`ValueErrCond`, `StatErrCond` — the right-hand sides of `fit_type_error_iff` …) holds -/
+theorem fit_defined_iff (sd : List Rat → Rat) (cfg : Cfg) (w : List Val) :
+    (fit sd cfg w).isSome = true ↔ ¬ TypeErrCond cfg w ∧ ¬ ValueErrCond cfg w ∧ ¬ StatErrCond cfg w :=
+  fit_isSome_iff' sd cfg w
+
+/-- WHICH DENSE COLUMNS GET SCALED, for every table (mixed-type columns included).  The code's decision procedure is
+`denseDecision` (it IS what `denseRow` applies, first conjunct, by `rfl`): potential key from the FIRST context, parameters
+from the WINDOW column.  It decides "scale" iff the first context's cell exists and is not a string (None/nan/number) and
+the window column raises none of the three exceptions; a decided column has every number `x ↦ (x+s)·f` and everything
+else untouched, an undecided one is untouched -/
+theorem scale_dense_column_iff (sd : List Rat → Rat) (cfg : Cfg) (first : List Val) (win : List (List Val)) (k : Nat) :
+    (∀ row, denseRow sd cfg first win row = row.mapIdx (fun k v => applyOpt (denseDecision sd cfg first win k) v)) ∧
+    ((denseDecision sd cfg first win k).isSome = true ↔
+      (∃ v, first[k]? = some v ∧ v.isStr = false) ∧
+        ¬ TypeErrCond cfg (col k win) ∧ ¬ ValueErrCond cfg (col k win) ∧ ¬ StatErrCond cfg (col k win)) ∧
+    (∀ v, (denseDecision sd cfg first win k = none → applyOpt (denseDecision sd cfg first win k) v = v) ∧
+      (∀ s f, denseDecision sd cfg first win k = some (s, f) →
+        (∀ x, v = .num x → applyOpt (denseDecision sd cfg first win k) v = .num ((x + s) * f)) ∧
+        (v.isNum = false → applyOpt (denseDecision sd cfg first win k) v = v))) :=
+  ⟨fun row => denseRow_decision sd cfg first win row, denseDecision_isSome_iff' sd cfg first win k,
+   fun v => applyOpt_decision _ v⟩
+
+/-- a mixed column that starts with a number and holds a string in the window IS scaled under numeric shift and scale … -/
+example : denseDecision (fun _ => 1) ⟨.num 1, .num 2, none⟩ [.num 3] [[.num 3], [.str "x"]] 0 = some (1, 2) := by decide +kernel
+/-- … and is NOT under a named statistic, nor when it starts with the string -/
+example : denseDecision (fun _ => 1) ⟨.min, .num 2, none⟩ [.num 3] [[.num 3], [.str "x"]] 0 = none := by decide +kernel
+example : denseDecision (fun _ => 1) ⟨.num 1, .num 2, none⟩ [.str "x"] [[.str "x"], [.num 3]] 0 = none := by decide +kernel
+
+/-- the same for sparse keys: decided iff the first context does not hold a string under the key (absent counts as fine)
+and the window column (absent = 0) raises none of the exceptions -/
+theorem scale_sparse_column_iff (sd : List Rat → Rat) (cfg : Cfg) (first : SCtx) (win : List SCtx) (k : String) :
+    (∀ c, sparseRow sd cfg first win c = c.map (fun kv => (kv.1, applyOpt (sparseDecision sd cfg first win kv.1) kv.2))) ∧
+    ((sparseDecision sd cfg first win k).isSome = true ↔
+      (∀ v, first.lookup k = some v → v.isStr = false) ∧
+        ¬ TypeErrCond cfg (win.map (getD0 k)) ∧ ¬ ValueErrCond cfg (win.map (getD0 k)) ∧ ¬ StatErrCond cfg (win.map (getD0 k))) :=
+  ⟨fun c => sparseRow_decision sd cfg first win c, sparseDecision_isSome_iff' sd cfg first win k⟩
+
+/-- WHICH COLUMNS GET IMPUTED: `_get_imputation` yields a value iff the window column is `Imputable` (a non-missing value
+exists and, for mean/median, all non-missing values are numbers — so a MIXED column is imputed by `mode` only); the dense
+path additionally asks the FIRST context's cell not to be a string (mean/median) resp. to exist (mode); the sparse path asks
+that of the first context's entry under the key, if there is one -/
+theorem impute_column_iff (st : Stat) :
+    (∀ w, (getImp st w).isSome = true ↔ Imputable st w) ∧
+    (∀ (first : List Val) (win : List (List Val)) (k : Nat), (denseImp st first win k).isSome = true ↔
+      (match st with | .mode => k < first.length | _ => ∃ v, first[k]? = some v ∧ v.isStr = false) ∧
+        Imputable st (col k win)) ∧
+    (∀ (first : SCtx) (win : List SCtx) (k : String), (sparseImp st first win k).isSome = true ↔
+      (match st with | .mode => True | _ => ∀ v, first.lookup k = some v → v.isStr = false) ∧
+        Imputable st (sparseCol k win)) :=
+  ⟨getImp_isSome_iff' st, denseImp_isSome_iff' st, sparseImp_isSome_iff' st⟩
+
+example : (denseImp .mode [.str "a"] [[.str "a"], [.num 1], [.nil]] 0).isSome = true := by decide +kernel
+example : (denseImp .mean [.num 2] [[.num 2], [.str "a"], [.nil]] 0).isSome = false := by decide +kernel
+
+/-- `scale_containers_agree` WITHOUT its hypothesis, as an iff: scalar contexts and dense contexts with one feature give
+the same result exactly when the first context is not a string or the scalar path changes nothing (no parameters, or no
+number they move).  So the hypothesis cannot be lifted: `scale_scalar_dense_mixed_counterexample` (replayed on the code by
+the corpus cases tagged `agree:mixed-first-string`) is an instance of the right-hand side failing -/
+theorem scale_scalar_dense_agree_iff (sd : List Rat → Rat) (cfg : Cfg) (v0 : Val) (rest : List Val) :
+    scaleDense sd cfg ((v0 :: rest).map (fun v => [v])) = (scaleScalar sd cfg (v0 :: rest)).map (fun v => [v]) ↔
+      (v0.isStr = false ∨ ∀ v ∈ v0 :: rest, applyOpt (fit sd cfg (window cfg.usingN (v0 :: rest))) v = v) :=
+  scale_scalar_dense_agree_iff' sd cfg v0 rest
+
+/-- the integer square root with sticky bit of CPython's `statistics` is exact on perfect squares -/
+theorem isqrt_rto_exact (a m : Nat) (hm : 0 < m) : isqrtRto (a * a * m) m = a := isqrtRto_exact' a m hm
+
+/-- THE SQUARE ROOT.  `pySd` is what `statistics.stdev` computes (`_float_sqrt_of_frac` on the exact sample variance, before
+the final correctly rounded int/int division — exact whenever the numerator fits 53 bits).  It satisfies `SqrtExact`, the
+hypothesis of `fit_eq_spec_q`, on every data set whose sample variance is the square of a rational `r ≥ 0` whose denominator
+divides `r.num·2^s` (`s` the routine's scaling shift, ≥ 54 for modest data: every dyadic `r` with ≤ 54 fractional bits) -/
+theorem sqrt_exact_perfect_square (xs : List Rat) (r : Rat) (hr : 0 ≤ r) (hv : variance xs = r * r)
+    (hq : pySqrtShift (r.num.toNat * r.num.toNat) (r.den * r.den) < 0)
+    (hd : r.den ∣ r.num.toNat * 2 ^ (-(pySqrtShift (r.num.toNat * r.num.toNat) (r.den * r.den))).toNat) :
+    SqrtExact pySd xs := sqrt_exact_perfect_square' xs r hr hv hq hd
+
+/-- the hypotheses are met by `[1, 3, 5]` (variance 4 = 2²) and by `[1/4, 3/4]` … (variance 1/8 is not a square:) `[0, 3/2, 3]`
+(variance 9/4 = (3/2)²) -/
+example : SqrtExact pySd [1, 3, 5] :=
+  sqrt_exact_perfect_square [1, 3, 5] 2 (by decide +kernel) (by decide +kernel) (by decide +kernel) (by decide +kernel)
+example : SqrtExact pySd [0, 3 / 2, 3] :=
+  sqrt_exact_perfect_square [0, 3 / 2, 3] (3 / 2) (by decide +kernel) (by decide +kernel) (by decide +kernel) (by decide +kernel)
+
+/-- outside perfect squares the routine is NOT exact (ℚ has no √2): `SqrtExact` fails for `[0, 2]` (variance 2) -/
+theorem sqrt_exact_counterexample : ¬ SqrtExact pySd [0, 2] := by
+  unfold SqrtExact
+  decide +kernel
+
 end Coba.C11
